@@ -120,6 +120,36 @@ Theorem C05_tar_events_walk : forall t : tree,
 Proof. exact tar_events_walk. Qed.
 Print Assumptions C05_tar_events_walk.
 
+(* The same holds whether or not Tar() checks that the source is exhausted ([tar_events_with]):
+   a stream grouped by directory -- depth first, as a walk or `tar c` produce it -- is archived
+   completely either way. *)
+Theorem C05_tarin_grouped : forall (check : bool) (t : tree),
+  wf_tree t -> tar_events_with check (walk [] [] t) = tar_tree [] [] t.
+Proof. exact tar_events_with_walk. Qed.
+Print Assumptions C05_tarin_grouped.
+
+(* KNOWN FINDING (tar-stream input; code before "fix: tar fails when the source holds entries that
+   did not make it into the archive", [tar_events_with false]): the four-member stream
+       ./   d0/   f1   d0/f0
+   (a member of d0 after a member of its parent, as `tar -r` appends or name-sorted tools produce)
+   is archived "successfully", and the archive decodes to ./, d0 and f1 only: d0/f0 is lost.
+   With the check ([tar_events_with true]) Tar fails instead. *)
+Theorem C05_tarin_ungrouped_refuted :
+  (exists els ns, tar_events_with false ungrouped_stream = Some els /\
+                  decode_archive (encode_elems els) = Ok (ns, []) /\
+                  node_paths ns = [[]; [[100; 48]]; [[102; 49]]] /\
+                  ~ In [[100; 48]; [102; 48]] (node_paths ns)) /\
+  tar_events_with true ungrouped_stream = None.
+Proof. exact tarin_ungrouped. Qed.
+Print Assumptions C05_tarin_ungrouped_refuted.
+
+(* after the fix a successful Tar has read its source to the end: nothing is dropped silently *)
+Theorem C05_tarin_checked_complete : forall f rest els,
+  tar_events_with true (f :: rest) = Some els ->
+  tar_ev (2 * length (f :: rest) + 2) f rest = Some (els, []).
+Proof. exact tar_events_checked_complete. Qed.
+Print Assumptions C05_tarin_checked_complete.
+
 (* Packing the same tree twice yields identical bytes: the archive is a function of the tree and
    does not depend on the order in which the xattr keys of an object are listed (same_tree:
    equal shape, names, contents and attributes; the xattr lists are permutations of each other). *)
